@@ -5,6 +5,22 @@ sys.path.insert(0, os.path.join(os.path.dirname(os.path.abspath(__file__)), ".."
 import vlib  # noqa: E402
 
 
+def _ensure_driver(c, eng):
+    """When a proof / tie obligation of this property broke, the Lean build as a whole failed and the
+    driver was not installed, so no differential run (and no failing-input search) would take place.
+    The engine does not depend on the property theorems: build it on its own."""
+    import shutil
+
+    if eng in c.drivers or not c.harness:
+        return
+    ok, _out, _failed = vlib.lake_build(["drv_" + eng])
+    src = os.path.join(vlib.LEAN, ".lake", "build", "bin", "drv_" + eng)
+    if ok and os.path.exists(src):
+        dst = os.path.join(c.tmp, "drv_" + eng)
+        shutil.copy2(src, dst)
+        c.drivers[eng] = dst
+
+
 def before_diff(c):
     """The c32 harness uses the REAL keepalive loop (100 ms interval, 300 ms timeout) for its keepalive-timeout
     steps and waits 60 ms for a frame to be delivered. On a loaded machine a responsive connection can miss
@@ -12,6 +28,7 @@ def before_diff(c):
     whose answers differ from the model's is re-run (at most twice) and the re-run's answers are used when
     they agree with the model. Every defect this check is about is reproduced deterministically by the
     gate-controlled scripts and survives the re-run."""
+    _ensure_driver(c, "c32")
     orig = c.go_run
     stats = c.p.setdefault("extra_coverage", {})
     stats["timing_reruns"] = 0
@@ -42,6 +59,9 @@ PROP = dict(
     engines=["c32"],
     go_tags=["c32"],
     lean_modules=["MM.Props.C32"],
+    extract_files={"MM/Gen/LockC32.lean": {"cmd": ["go", "run", "{VERIF}/tools/lockshape.go", "LockC32",
+        "{REPO}/internal/peer/manager.go",
+        "Manager.registerConnection,Manager.handleDisconnect,Manager.Disconnect,Manager.DisconnectAll", "mu", "peers"]}},
     theorems=[
         "MM.C32.reachable_inv",
         "MM.C32.C32_at_most_one",
@@ -50,6 +70,9 @@ PROP = dict(
         "MM.C32.C32_stale_teardown_noop",
         "MM.C32.C32_stale_teardown_harmless",
         "MM.C32.C32_old_stale_teardown_harms",
+        "MM.C32.LockTie.C32_lock_register_atomic",
+        "MM.C32.LockTie.C32_lock_teardown_atomic",
+        "MM.C32.LockTie.C32_lock_disconnect_atomic",
     ],
     spec=True,
     timeout=900,
@@ -60,7 +83,7 @@ PROP = dict(
          "connection until the script releases it, and the hook peer.Manager.handleDisconnect:done orders teardowns against re-registration. "
          "Observed: which connection is registered, delivered/dropped, routes and relay entries per peer; compared with the Lean LTS. "
          "non-trivial = observation and readerr/ktimeout ops",
-    nontrivial=lambda op, out: op.split(" ")[0] in ("routes", "relays", "peer", "readerr", "ktimeout", "rclose", "frame"),
+    nontrivial=lambda op, out: op.split(" ")[0] in ("routes", "relays", "peer", "readerr", "ktimeout", "rclose", "frame", "race"),
     trusted_base=[
         "MM/Model/C32.lean: atomic steps = regions under Manager.mu plus the callback that follows; Disconnect's delete-then-close is one step",
         "ghost tags (which connection a route/relay was learned through) exist only in the model and in the spec's bookkeeping",
